@@ -18,6 +18,9 @@ type accessRec struct {
 	locks string // sorted "class:mode" list
 	pos   string
 	op    string
+	tid   int
+	cell  string         // concrete cell: object id + path
+	held  map[string]int // lock key -> mode at the time of the access
 }
 
 // AccessClass aggregates the accesses to one cell class.
@@ -66,6 +69,11 @@ func (r *Run) cellClass(p Ptr) string {
 			sb.WriteString("." + u.Field(i).Name())
 			t = u.Field(i).Type()
 		case *types.Array:
+			if sb.Len() > 0 && strings.HasPrefix(sb.String(), "[") && p.Obj.Label == "" {
+				// backing store of a slice: the capacity is incidental, name it by element type
+				sb.Reset()
+				sb.WriteString("[]" + typeName(u.Elem()))
+			}
 			sb.WriteString("[*]")
 			t = u.Elem()
 		default:
@@ -97,23 +105,126 @@ func (r *Run) heldString(th *Thread) string {
 	return strings.Join(ls, ",")
 }
 
-func (r *Run) noteAccess(th *Thread, p Ptr, write bool, pos token.Pos) {
-	if !r.monitor || p.Obj == nil || !p.Obj.Shared {
+func copyHeld(h map[string]int) map[string]int {
+	if len(h) == 0 {
+		return nil
+	}
+	c := make(map[string]int, len(h))
+	for k, v := range h {
+		c[k] = v
+	}
+	return c
+}
+
+// freeAccessYield: a shared access made while holding no lock is a visible operation; one
+// pre-emption point is placed before the first such access after each synchronisation operation
+// of the thread (a stated granularity: the race itself is reported by the lock-discipline rule).
+func (r *Run) freeAccessYield(th *Thread, obj interface{}) {
+	if r.parDepth == 0 || !th.inPar || len(th.held) > 0 {
 		return
 	}
-	r.access = append(r.access, accessRec{class: r.cellClass(p), write: write, locks: r.heldString(th), pos: r.E.Pos(pos), op: r.curOp})
+	if th.lastFree != nil {
+		return
+	}
+	th.lastFree = obj
+	th.yield()
+}
+
+func (r *Run) noteAccess(th *Thread, p Ptr, write bool, pos token.Pos) {
+	if !r.monitor || p.Obj == nil || !p.Obj.Shared || r.parDepth == 0 || !th.inPar {
+		return
+	}
+	if isSyncType(p.Obj.Typ) {
+		return
+	}
+	r.freeAccessYield(th, p.Obj)
+	r.access = append(r.access, accessRec{class: r.cellClass(p), write: write, locks: r.heldString(th), pos: r.E.Pos(pos), op: th.curOp,
+		tid: th.ID, cell: p.Key(), held: copyHeld(th.held)})
 }
 
 func (r *Run) noteMapAccess(th *Thread, m *MapObj, write bool, pos token.Pos) {
-	if !r.monitor || m == nil || !m.Shared {
+	if !r.monitor || m == nil || !m.Shared || r.parDepth == 0 || !th.inPar {
 		return
 	}
-	r.access = append(r.access, accessRec{class: "map:" + typeName(m.KT) + "->" + typeName(m.VT) + "#" + m.label, write: write, locks: r.heldString(th), pos: r.E.Pos(pos), op: r.curOp})
+	r.freeAccessYield(th, m)
+	r.access = append(r.access, accessRec{class: "map:" + typeName(m.KT) + "->" + typeName(m.VT), write: write, locks: r.heldString(th), pos: r.E.Pos(pos), op: th.curOp,
+		tid: th.ID, cell: fmt.Sprintf("map%p", m), held: copyHeld(th.held)})
+}
+
+// protectedPair: two accesses by different threads are ordered by mutual exclusion iff they hold
+// a common mutex and at least one of them holds it exclusively.
+func protectedPair(a, b *accessRec) bool {
+	for k, ma := range a.held {
+		if mb, ok := b.held[k]; ok && (ma == 2 || mb == 2) {
+			return true
+		}
+	}
+	return false
+}
+
+// checkRaces applies the lock-discipline rule to the accesses logged by the Par threads: same
+// concrete cell, different threads, at least one write, no common mutex held exclusively by one.
+// Returns after recording (at most a few) violations; a race listed as a known finding ends the path.
+func (r *Run) checkRaces(from int) {
+	recs := r.access[from:]
+	byCell := map[string][]*accessRec{}
+	var order []string
+	for i := range recs {
+		a := &recs[i]
+		if _, ok := byCell[a.cell]; !ok {
+			order = append(order, a.cell)
+		}
+		byCell[a.cell] = append(byCell[a.cell], a)
+	}
+	seen := map[string]bool{}
+	knownHit := false
+	for _, c := range order {
+		as := byCell[c]
+		for i := 0; i < len(as); i++ {
+			for j := i + 1; j < len(as); j++ {
+				a, b := as[i], as[j]
+				if a.tid == b.tid || (!a.write && !b.write) || protectedPair(a, b) {
+					continue
+				}
+				oa, ob := a.op, b.op
+				if ob < oa {
+					oa, ob = ob, oa
+					a, b = b, a
+				}
+				id := "race/" + a.class + "/" + oa + "~" + ob
+				if seen[id] {
+					continue
+				}
+				seen[id] = true
+				msg := fmt.Sprintf("unsynchronised conflicting accesses to %s: %s %s at %s holding [%s] vs %s %s at %s holding [%s]",
+					a.class, a.op, rw(a.write), a.pos, a.locks, b.op, rw(b.write), b.pos, b.locks)
+				if r.E.KnownIDs[id] {
+					knownHit = true
+					r.recordViolation(id, msg, token.NoPos, true, r.model)
+				} else {
+					r.recordViolation(id, msg, token.NoPos, false, r.model)
+				}
+			}
+		}
+	}
+	if knownHit {
+		r.end("known", "path ended at a recorded known finding (race)")
+	}
+}
+
+func rw(w bool) string {
+	if w {
+		return "write"
+	}
+	return "read"
 }
 
 // share marks everything reachable from v as shared between threads.
-func (r *Run) share(v Value) {
-	r.monitor = true
+func (r *Run) share(v Value, races bool) {
+	if races {
+		r.monitor = true
+	}
+	r.shareUsed = true
 	r.publishValue(v)
 }
 
@@ -149,6 +260,13 @@ func (r *Run) publishValue(v Value) {
 				r.publishValue(e.V)
 			}
 		}
+	case *ChanObj:
+		if x != nil && !x.Shared {
+			x.Shared = true
+			for _, e := range x.Buf {
+				r.publishValue(e)
+			}
+		}
 	case *FuncV:
 		if x != nil {
 			for _, e := range x.Env {
@@ -160,7 +278,7 @@ func (r *Run) publishValue(v Value) {
 
 // publish: storing a reference into a shared object shares the referent.
 func (r *Run) publish(p Ptr, v Value) {
-	if r.monitor && p.Obj.Shared {
+	if r.shareUsed && p.Obj.Shared {
 		r.publishValue(v)
 	}
 }
@@ -197,6 +315,7 @@ func (th *Thread) par(caller *frame, pos token.Pos, fns SliceV) {
 		kids = append(kids, k)
 	}
 	r.parDepth++
+	from := len(r.access)
 	th.block("Par", func() bool {
 		for _, k := range kids {
 			if !k.done {
@@ -207,6 +326,9 @@ func (th *Thread) par(caller *frame, pos token.Pos, fns SliceV) {
 		return true
 	})
 	r.parDepth--
+	if r.monitor {
+		r.checkRaces(from)
+	}
 }
 
 // ---- package initialisation ----
